@@ -8,7 +8,8 @@
    contrib cr c x = x under 'precise', = rescale x c (x rounded to the currency's c decimals)
    under 'currency'. *)
 From Coq Require Import ZArith QArith List Bool String.
-From Verif Require Import Base.Wire Base.Rha Num.Amount Num.AmountProofs Calc.Doc Calc.Calc Calc.TaxProofs.
+From Verif Require Import Base.Wire Base.Rha Num.Amount Num.AmountProofs Calc.Doc Calc.Calc Calc.TaxProofs
+  Calc.TaxSurchargeProofs.
 Import ListNotations.
 Open Scope Q_scope.
 
@@ -210,7 +211,9 @@ Proof. vm_compute. discriminate. Qed.
    and charge is of that category, not retained and without surcharge (combo_inv).
    doc_gross d lcs: sum of the line totals, less document discounts, plus document charges.
    Partial: the property's "no other tax applies" is taken to exclude surcharges of the included
-   category too (a surcharge is added on top of the gross sum). *)
+   category too (a surcharge is added on top of the gross sum); the statement with surcharges is
+   included_tax_gross_identity_with_surcharges below, of which this is the special case
+   (included_tax_gross_identity_is_the_case_without_surcharges). *)
 Theorem included_tax_gross_identity_partial d t : only_included_tax d -> calculate d = Totals t ->
   exists lcs,
     calc_lines (d_currency_rule d) (d_c d) (d_cur d) (d_rates d) (d_lines d) = Some lcs /\
@@ -235,3 +238,109 @@ Proof.
   - split; [discriminate|]. repeat constructor.
   - eexists. split; [vm_compute; reflexivity|]. repeat split.
 Qed.
+
+(* ---- prices include a tax that carries surcharges (equivalence surcharge) ---- *)
+(* only_included_tax_with_surcharges d: a category is included in prices and every combo of every
+   line, discount and charge is of that category and not retained (combo_included); surcharges
+   are allowed.
+   doc_cats d lcs: the categories at working precision, before presentation (the calculated
+   document presents map (ct_round c) of them); included_cat d lcs: the one of the included
+   category; included_surcharge d lcs: its ct_surcharge (the sum of its groups' surcharge amounts,
+   category_amount_is_sum_of_groups above), zero when there is none.
+   surcharge_precision_ok d lcs: when the included category carries a surcharge, its
+   working-precision amount has no more decimals than the gross sum.
+   A surcharge is computed on the tax-exclusive base and added on top: the total with tax is the
+   gross sum plus the surcharge total, added without loss and rounded once to the currency. *)
+Theorem included_tax_gross_identity_with_surcharges d t :
+  only_included_tax_with_surcharges d -> calculate d = Totals t ->
+  exists lcs,
+    calc_lines (d_currency_rule d) (d_c d) (d_cur d) (d_rates d) (d_lines d) = Some lcs /\
+    t_cats t = map (ct_round (d_c d)) (doc_cats d lcs) /\
+    (surcharge_precision_ok d lcs ->
+     t_twt t = rescale (add (doc_gross d lcs) (included_surcharge d lcs)) (d_c d) /\
+     toQ (add (doc_gross d lcs) (included_surcharge d lcs)) ==
+       toQ (doc_gross d lcs) + toQ (included_surcharge d lcs)).
+Proof. exact (TaxSurchargeProofs.included_tax_gross_identity_with_surcharges d t). Qed.
+Print Assumptions included_tax_gross_identity_with_surcharges.
+
+(* under the 'currency' rule the hypothesis on precisions always holds *)
+Theorem surcharge_precision_holds_under_the_currency_rule d lcs :
+  d_currency_rule d = true -> surcharge_precision_ok d lcs.
+Proof. exact (currency_rule_precision_ok d lcs). Qed.
+Print Assumptions surcharge_precision_holds_under_the_currency_rule.
+
+(* ... and under either rule for a document with at least one line whose document discounts and
+   charges (doc_ddc: each paired with its calculated amount) have no more decimals than the gross
+   sum *)
+Theorem surcharge_precision_holds_unless_a_discount_or_charge_is_more_precise d lcs :
+  d_lines d <> [] ->
+  calc_lines (d_currency_rule d) (d_c d) (d_cur d) (d_rates d) (d_lines d) = Some lcs ->
+  Forall (fun p => (exp (snd p) <= exp (doc_gross d lcs))%nat) (doc_ddc d lcs (d_discounts d)) ->
+  Forall (fun p => (exp (snd p) <= exp (doc_gross d lcs))%nat) (doc_ddc d lcs (d_charges d)) ->
+  surcharge_precision_ok d lcs.
+Proof. exact (surcharge_precision_ok_from_document d lcs). Qed.
+Print Assumptions surcharge_precision_holds_unless_a_discount_or_charge_is_more_precise.
+
+(* in terms of the rows handed to the tax calculator (rows_precision_ok: no prepared row - line
+   total, negated discount, charge, raised to two more decimals than the currency - has more
+   decimals than the gross sum) *)
+Theorem surcharge_precision_holds_when_no_row_is_more_precise d lcs :
+  rows_precision_ok d lcs -> surcharge_precision_ok d lcs.
+Proof. exact (rows_precision_ok_enough d lcs). Qed.
+Print Assumptions surcharge_precision_holds_when_no_row_is_more_precise.
+
+(* without surcharges: the hypothesis holds, the surcharge total is zero, the identity is the
+   one of included_tax_gross_identity_partial *)
+Theorem included_tax_gross_identity_is_the_case_without_surcharges d t :
+  only_included_tax d -> calculate d = Totals t ->
+  exists lcs,
+    calc_lines (d_currency_rule d) (d_c d) (d_cur d) (d_rates d) (d_lines d) = Some lcs /\
+    surcharge_precision_ok d lcs /\ included_surcharge d lcs = zero_of (d_c d) /\
+    t_twt t = rescale (doc_gross d lcs) (d_c d).
+Proof. exact (included_tax_gross_identity_special_case d t). Qed.
+Print Assumptions included_tax_gross_identity_is_the_case_without_surcharges.
+
+(* ES, 121.00 including 21 % with 5.2 % equivalence surcharge: total 100.00, tax 26.20,
+   total with tax 126.20 = gross 121.00 + surcharge 5.20 *)
+Definition c02_surcharge_example_doc : doc :=
+  mkDoc 2 false (bs "VAT") 1
+        [mkLine (mkA 1 0) (mkItem (mkA 12100 2) None []) [] [] []
+                [mkCombo (bs "VAT") [] [] (Some (mkA 21 2)) (Some (mkA 52 3)) false (bs "standard+eqs")]]
+        [] [] [] [] [] None.
+Example included_tax_gross_identity_with_surcharges_applies :
+  only_included_tax_with_surcharges c02_surcharge_example_doc /\
+  exists t lcs,
+    calculate c02_surcharge_example_doc = Totals t /\
+    calc_lines false 2 1 [] (d_lines c02_surcharge_example_doc) = Some lcs /\
+    surcharge_precision_ok c02_surcharge_example_doc lcs /\
+    rows_precision_ok c02_surcharge_example_doc lcs /\
+    d_lines c02_surcharge_example_doc <> [] /\
+    Forall (fun p => (exp (snd p) <= exp (doc_gross c02_surcharge_example_doc lcs))%nat)
+           (doc_ddc c02_surcharge_example_doc lcs (d_discounts c02_surcharge_example_doc)) /\
+    Forall (fun p => (exp (snd p) <= exp (doc_gross c02_surcharge_example_doc lcs))%nat)
+           (doc_ddc c02_surcharge_example_doc lcs (d_charges c02_surcharge_example_doc)) /\
+    t_twt t = mkA 12620 2 /\ t_total t = mkA 10000 2 /\ t_tax t = mkA 2620 2 /\
+    doc_gross c02_surcharge_example_doc lcs = mkA 1210000 4 /\
+    included_surcharge c02_surcharge_example_doc lcs = mkA 52000 4.
+Proof.
+  split.
+  - split; [discriminate|]. repeat constructor.
+  - do 2 eexists. split; [vm_compute; reflexivity|]. split; [vm_compute; reflexivity|].
+    split; [vm_compute; right; repeat constructor|].
+    split; [vm_compute; repeat constructor|].
+    split; [discriminate|]. split; [constructor|]. split; [constructor|]. repeat split.
+Qed.
+
+(* the hypothesis on precisions cannot be dropped under 'precise': surcharge_precision_witness is
+   one line of 121.00 and a document charge of 0.023900 (six decimals, the lines have four), both
+   at 21 % + 5.2 %; gross 121.0239 + surcharge 5.201027 = 126.224927 rounds to 126.22, the
+   total with tax is 126.23 (the amount 21.004148 is taken out, and amount + surcharge put back,
+   at the gross sum's four decimals) *)
+Theorem included_tax_gross_identity_with_surcharges_at_any_precision_refuted :
+  exists d t lcs,
+    only_included_tax_with_surcharges d /\ calculate d = Totals t /\
+    calc_lines (d_currency_rule d) (d_c d) (d_cur d) (d_rates d) (d_lines d) = Some lcs /\
+    t_twt t = mkA 12623 2 /\
+    rescale (add (doc_gross d lcs) (included_surcharge d lcs)) (d_c d) = mkA 12622 2.
+Proof. exact surcharge_identity_needs_precision. Qed.
+Print Assumptions included_tax_gross_identity_with_surcharges_at_any_precision_refuted.
